@@ -37,6 +37,8 @@ FIXED = [
     ("C04", "8580ef9", "is_char was true for symbolic links and block devices (`mode & S_IFCHR == S_IFCHR` without the S_IFMT mask): two type booleans true at once", ["symlink-and-block-are-not-char"]),
     ("C04", "0e69e47", "for archive members is_file/is_dir/is_symlink came from the member name only: a member stored with a FIFO, device, socket or symlink mode was also reported as a regular file", []),
     ("C17", "725b9c0", "when the reader of stdout closed the pipe, `into html`/`into json` (footer) and grouped output hit unwrap() on the BrokenPipe error: panic message, status 101", ["pipe-html-streamed", "pipe-json-ordered"]),
+    ("C18", "c679315", "with `symlinks` a relative link target was resolved against the process cwd instead of the link's directory (`a/b/up -> ..` walked the parent of the cwd; deeper relative links failed to canonicalize), and a link to a regular file was entered as a directory (`Not a directory`, status 1)", ["relative-up-from-depth-2", "relative-sibling-dir-deep", "link-to-file", "outside-and-cycle"]),
+    ("C18", "017fff0", "with `symlinks` a directory reachable directly and through a link (or through two links) was listed once per spelling of its path", ["dir-direct-and-via-link"]),
 ]
 
 OPEN = [
